@@ -88,6 +88,20 @@ def run(res, tier, seed):
                 and impl.nan_eq(ds["ict_counts"].values, ict) and impl.nan_eq(ds["space_counts"].values, space)):
             res.violations.append(("dataset variables differ from get_counts/get_telemetry", dict(fmt=fmt, seed=seed)))
         res.traces += 1
+        # the counts must still be the samples after the same reader has produced calibrated products
+        try:
+            import warnings as _w
+            with _w.catch_warnings():
+                _w.simplefilter("ignore")
+                r.get_calibrated_channels()
+            again = r.get_counts()
+            if not (impl.nan_eq(again, counts) and impl.nan_eq(dsc, counts)):
+                bad_ = np.argwhere(~((again == counts) | (np.isnan(again) & np.isnan(counts))))
+                res.violations.append(("get_counts() after get_calibrated_channels() on the same reader no longer returns the packed samples",
+                                       dict(fmt=fmt, spacecraft=sc, lines=n, differing_values=int(len(bad_)),
+                                            first=[int(x) for x in bad_[0]] if len(bad_) else None, seed=seed)))
+        except Exception as e:  # noqa
+            res.notes["calibration_after_counts"] = repr(e)[:200]
         for i, line in enumerate(lines):
             words, tw, kind = truth[i]
             got = counts[i]
